@@ -144,7 +144,7 @@ def run_nest(ctx, harness, exe, quick, known):
     except Exception:
         pass
     outcomes, kinds = {}, {}
-    sens = twins = agree = f2 = f18 = viol = 0
+    sens = twins = agree = f2 = f18 = viol = ident = 0
     struct_chosen = field_ambig = 0
     distinct = set()
     for i, (c, a, m, name) in enumerate(zip(cases, impl, model, meta)):
@@ -168,6 +168,16 @@ def run_nest(ctx, harness, exe, quick, known):
         if s and "F2" in known and nest_plausible(a, m0):
             f2 += 1
             continue
+        def _n(x):
+            f = x.split(" ")
+            return int(f[1]) if f[0] == "AMBIG" and len(f) > 1 and f[1].isdigit() else (1 if f[0] == "CHOSEN" else None)
+        if a.startswith("AMBIG") and _n(m0) is not None and _n(a) is not None and _n(m0) < _n(a):
+            # model incompleteness, not a verdict about cue (DESIGN 10.9): NestCUE identifies the value of a field by its
+            # resolution and its acceptance of the probe atoms, so two struct alternatives whose fields differ only outside
+            # the probes are merged by the model (fewer surviving values: CHOSEN, or AMBIG m) while cue keeps them apart (AMBIG n, n > m). Counted, not raised;
+            # the opposite direction and every other difference stay violations.
+            ident += 1
+            continue
         viol += 1
         if viol <= 5:
             ctx.violation({"kind": NEST_KIND, "program": src[i], "case": c, "impl": a, "spec_model": m,
@@ -183,7 +193,7 @@ def run_nest(ctx, harness, exe, quick, known):
         "evaluations": len(cases), "distinct_cases": len(distinct), "agree_exactly": agree,
         "case_kinds": kinds, "outcomes": outcomes, "chosen_structs": struct_chosen, "results_with_ambiguous_field": field_ambig,
         "features": feats, "fold_sensitive_cases(SENS)": sens, "twin_cases(TWINS)": twins,
-        "mismatches_in_known_class_F2": f2, "mismatches_in_known_class_F18": f18, "violations_found": viol,
+        "mismatches_in_known_class_F2": f2, "mismatches_in_known_class_F18": f18, "model_identity_incomplete_ambig_vs_chosen": ident, "violations_found": viol,
         "samples": [{"program": src[i], "impl": impl[i], "model": model[i]} for i in (0, min(40, len(src) - 1))] if src else [],
     }
 
